@@ -179,6 +179,12 @@ theorem expNonneg_sound (x : ℚ) (n : ℕ) (hx : 0 ≤ x) :
     (min_le_left _ _)
   exact sqrIter_sound m k _ _ hS.1 hS.2.1 hS.2.2
 
+theorem two_pow_le_exp (k : ℕ) : (2 : ℝ) ^ k ≤ Real.exp (k : ℝ) := by
+  have h2 : (2 : ℝ) ≤ Real.exp 1 := by have := Real.add_one_le_exp 1; linarith
+  have : Real.exp (k : ℝ) = Real.exp 1 ^ k := by rw [← Real.exp_nat_mul]; simp
+  rw [this]
+  exact pow_le_pow_left₀ (by norm_num) h2 k
+
 /-- **Soundness of the exponential enclosure**, for every rational argument and every effort `n`. -/
 theorem expEncl_sound (x : ℚ) (n : ℕ) :
     ((expEncl x n).1 : ℝ) ≤ Real.exp (x : ℝ) ∧ Real.exp (x : ℝ) ≤ ((expEncl x n).2 : ℝ) := by
@@ -187,6 +193,23 @@ theorem expEncl_sound (x : ℚ) (n : ℕ) :
   · rw [if_pos hx]
     exact (expNonneg_sound x n hx).2
   · rw [if_neg hx]
+    by_cases hbig : x < -((16 * n + 4096 : ℕ) : ℚ)
+    · rw [if_pos hbig]
+      refine ⟨by simpa using (Real.exp_pos _).le, ?_⟩
+      have hb : (x : ℝ) < -((16 * n + 4096 : ℕ) : ℝ) := by exact_mod_cast hbig
+      have hk : (x : ℝ) ≤ -((n + 64 : ℕ) : ℝ) := by
+        have : ((n + 64 : ℕ) : ℝ) ≤ ((16 * n + 4096 : ℕ) : ℝ) := by
+          exact_mod_cast (by omega : n + 64 ≤ 16 * n + 4096)
+        linarith
+      have h1 : Real.exp (x : ℝ) ≤ Real.exp (-((n + 64 : ℕ) : ℝ)) := Real.exp_le_exp.mpr hk
+      have h2 := two_pow_le_exp (n + 64)
+      have hpos : (0 : ℝ) < (2 : ℝ) ^ (n + 64) := by positivity
+      rw [Real.exp_neg] at h1
+      refine le_trans h1 ?_
+      push_cast at h2 ⊢
+      rw [one_div]
+      exact inv_anti₀ hpos h2
+    rw [if_neg hbig]
     have hx' : 0 ≤ -x := by linarith [not_le.mp hx]
     obtain ⟨h0, h1, h2⟩ := expNonneg_sound (-x) n hx'
     have hcast : ((-x : ℚ) : ℝ) = -(x : ℝ) := by push_cast; rfl
